@@ -31,9 +31,11 @@ def run(repo, chk):
     chk.assumptions = ['np.rot90(img, k) on (x, y) of an H x W image: k=1 -> (y, W-1-x), k=2 -> (W-1-x, H-1-y), k=3 -> (H-1-y, x)', 'np.where(image) returns (rows = y, columns = x)']
     R = Rules(repo, chk)
     refcheck.run_all(R, repo, chk, 'RECUR', 'layoutdec_ref.py', WHAT)
+    refcheck.run_all(R, repo, chk, 'RECUR', 'nets_ref.py', {'pn_get_maps': 'the map is cropped back to the down-sampled image (rows = shape[0], columns = shape[1])', 'get_maps_with_optimal_resolution': 'the down-sampling returned is the one the returned map was computed with'}, only=('pn_get_maps', 'get_maps_with_optimal_resolution', 'get_med_height', 'pn_init', 'net_init', 'le_init'))
+    refcheck.run_all(R, repo, chk, 'RECUR', 'geom_ref.py', {}, only=('region_from_textlines', 'alpha_shape', 'check_polygon', 'filter_polygons', 'get_penalty', 'get_pair_penalty', 'get_circumradius'))
     R.run('AFFINE', affine, repo, chk, soft_for=[L + ':LayoutEngine.rotate_layout', L + ':LayoutEngine.detect'])
     R.run('AXIS', axis, repo, Soft(chk))
-    chk.expect('RECUR', 9)
+    chk.expect('RECUR', 22)
     chk.expect('AFFINE', 10)
     chk.expect('AXIS', 4)
 
